@@ -582,6 +582,9 @@ class PythonTypesBackend(CodeBackend):
             if ns != value.union_data_type.namespace:
                 ref = '{}.{}'.format(fmt_namespace(value.union_data_type.namespace.name), ref)
             return ref
+        elif isinstance(value, str):
+            # pprint (fmt_obj) wraps a string with blanks over several lines.
+            return repr(value)
         else:
             return fmt_obj(value)
 
